@@ -141,7 +141,15 @@ def clipped_volume(P, u, c):
 
 @st.composite
 def uniform_case(draw):
-    P = draw(cloud(dmax=3))
+    if draw(st.integers(0, 2)) == 0:
+        # the gamut of a system with more sources than receptors and whole-number captures: all corners of the bound box mapped
+        # through an integer matrix (a zonotope: many coplanar hull points, exactly flat simplices in its triangulation)
+        import itertools
+        d_, n_ = draw(st.sampled_from([(3, 5), (3, 6), (4, 5), (4, 6)]))
+        A_ = np.asarray(draw(gens.array((d_, n_), 0.0, 6.0, styles=("int",))), dtype=float).reshape(d_, n_) + np.eye(d_, n_)
+        P = (np.array(list(itertools.product([0.0, 1.0], repeat=n_))) @ A_.T).tolist()
+    else:
+        P = draw(cloud(dmax=3))
     d = len(P[0])
     dirs = draw(gens.array((4, d), -1.0, 1.0, styles=("raw",)))
     ws = draw(gens.array((4, len(P)), 0.05, 1.0, styles=("raw",)))
